@@ -34,13 +34,18 @@ def fwd_chain(n, rng):
 
 
 def wide_join(n, rng):
-    """0 -> 1 -> {2..n-2} -> n-1: a join with n-3 predecessors; some of the
-    arms are chained so that the walks from the join have different lengths."""
+    """0 -> 1 -> {2..n-2} -> n-1: a join with n-3 predecessors (plus, often,
+    the entry itself as the one predecessor outside the switch); cross edges
+    between the arms."""
     if n < 4:
         return [(i, i + 1) for i in range(n - 1)]
     es = [(0, 1)] + [(1, i) for i in range(2, n - 1)] + [(i, n - 1) for i in range(2, n - 1)]
     if rng.random() < 0.5:
         es.append((n - 1, 1))                      # the whole switch in a loop
+    if rng.random() < 0.6:
+        # one predecessor of the join that node 1 does not dominate: the result is
+        # wrong as soon as THIS predecessor is left out of the intersection
+        es.append((0, n - 1))
     for _ in range(rng.randrange(0, 3)):
         a = rng.randrange(2, n - 1)
         es.append((a, rng.randrange(2, n - 1)))    # cross edges between arms (self loops too)
